@@ -41,6 +41,7 @@ def main():
     ap.add_argument("--only")
     ap.add_argument("--tier", default="quick")
     ap.add_argument("--no-demo", action="store_true")
+    ap.add_argument("--merge", action="store_true", help="merge the results of this run into --out instead of replacing it")
     ap.add_argument("--suite", action="store_true", help="also confirm that the change passes the repository's own test suite")
     ap.add_argument("--out", default=os.path.join(VERIF, "selftest", "seeded_result.json"))
     args = ap.parse_args()
@@ -89,9 +90,14 @@ def main():
                 print(c.stdout[-1200:], c.stderr[-1200:])
         finally:
             shutil.rmtree(root, ignore_errors=True)
-    if not args.only:
+    if not args.only or args.merge:
+        merged = results
+        if args.merge and os.path.exists(args.out):
+            old = {r["id"]: r for r in json.load(open(args.out))}
+            old.update({r["id"]: r for r in results})
+            merged = [old[k] for k in sorted(old)]
         with open(args.out, "w") as f:
-            json.dump(results, f, indent=1)
+            json.dump(merged, f, indent=1)
     missed = [r["id"] for r in results if not r.get("caught") and not r.get("neutralised_on_current_tree")]
     print(f"{len(results) - len(missed)}/{len(results)} seeded changes caught; missed: {missed}")
     return 0
